@@ -52,7 +52,7 @@ func Embed(l *core.Lane, kind int, parts [][]byte, surround bool) *Embedded {
 	case CPNG:
 		p := DrawPNG(l, parts[0], surround)
 		e.Bytes = p.Bytes
-		e.Map = []FieldSpan{{"png.exif.len", p.ExifOff - 8, 4}, {"end:exif", p.ExifOff + len(parts[0]) + 4, 0}}
+		e.Map = append([]FieldSpan{{"png.exif.len", p.ExifOff - 8, 4}, {"end:exif", p.ExifOff + len(parts[0]) + 4, 0}}, p.Map...)
 		e.Parts = []Span{{"tiff", p.ExifOff, p.ExifOff + len(parts[0])}}
 	case CCR3:
 		var o CR3Opts
